@@ -123,6 +123,32 @@ def run(ctx, model_ok, deep=False):
                 V("falsifier:cli-opts", "%s: short spelling %s -> status %d, long spelling %s -> status %d (expected %d, same output=%s)" % (
                     name, short[:5], r1[0], long_[:5], r2[0], want, r1[1] == r2[1]), ["# %s %s" % (name, " ".join(short))[:300]],
                   detail=(r1[2] + r2[2]).decode("latin-1")[-600:])
+        # ---------------- -a ALG with key files that carry no alg: every algorithm name, exactly ------
+        extra = dict(pool.keys)
+        if "k256" not in extra:
+            extra["k256"] = K.gen_key("ec", "secp256k1", ctx.scratch)
+        for kname, key in extra.items():
+            kfile = os.path.join(d, kname + "_noalg.json")
+            json.dump(key.jwk(private=True), open(kfile, "w"))
+            pfile = os.path.join(d, kname + "_noalg_pub.json")
+            json.dump(key.jwk(private=(key.kind == "oct")), open(pfile, "w"))
+            for alg in key.admissible_algs():
+                for gargs in (["-q", "-n", "-a", alg, "-k", kfile, "-c", "s:sub=a"], ["--quiet", "--no-iat", "--algorithm=" + alg, "--key=" + kfile, "--claim=s:sub=a"]):
+                    rc, out, err = tool(ctx, "jwt-generate", gargs)
+                    tok = out.decode().strip().split("\n")[-1] if out else ""
+                    ev += 1
+                    distinct.add(("gen-a", kname, alg, rc))
+                    if rc != 0 or tok.count(".") != 2:
+                        V("falsifier:cli-generate", "jwt-generate %s with %s failed (status %d)" % (gargs[2:4], kname, rc), detail=err.decode("latin-1")[-400:])
+                        continue
+                    try:
+                        halg = json.loads(b64d(tok.split(".")[0])).get("alg")
+                    except Exception:
+                        halg = None
+                    rc2, _, err2 = tool(ctx, "jwt-verify", ["-q", "-a", alg, "-k", pfile, tok])
+                    if rc2 != 0:
+                        V("falsifier:cli-roundtrip", "token from jwt-generate -a %s (%s; its header says alg=%s) is rejected by jwt-verify -a %s with the same key (status %d)" % (alg, kname, halg, alg, rc2),
+                          ["# jwt-generate -a %s | jwt-verify -a %s (key %s without alg member)" % (alg, alg, kname)], detail=err2.decode("latin-1")[-400:])
         # ---------------- generate -> verify round trips per key type --------------------------------
         for kname, key in pool.keys.items():
             alg = key.admissible_algs()[0]
